@@ -225,6 +225,21 @@ fn run_tokref(data: &[u8], out: &mut RunOut, line: &str) {
             err = Some("token-2022 accepts the mint but the generic parser disagrees".into());
         }
     }
+    {
+        // the same fields through the trait-level checked getters of the two implementors ("use the traits directly")
+        use spl_generic_token::token::{GenericTokenAccount, GenericTokenMint};
+        type TA = spl_generic_token::token::Account; type XA = spl_generic_token::token_2022::Account;
+        type TM = spl_generic_token::token::Mint; type XM = spl_generic_token::token_2022::Mint;
+        let g = guarded(|| {
+            let mut bad: Option<&'static str> = None;
+            if let Some(a) = &ta { if TA::unpack_account_mint(data).copied() != Some(a.mint) || TA::unpack_account_owner(data).copied() != Some(a.owner) || TA::unpack_account_amount(data) != Some(a.amount) { bad = Some("spl-token accepts the account but a checked getter of token::Account returns another mint / owner / amount"); } }
+            if let Some(a) = &xa { if XA::unpack_account_mint(data).copied() != Some(a.mint) || XA::unpack_account_owner(data).copied() != Some(a.owner) || XA::unpack_account_amount(data) != Some(a.amount) { bad = Some("token-2022 accepts the account but a checked getter of token_2022::Account returns another mint / owner / amount"); } }
+            if let Some(m) = &tm { if TM::unpack_mint_supply(data) != Some(m.supply) || TM::unpack_mint_decimals(data) != Some(m.decimals) { bad = Some("spl-token accepts the mint but a checked getter of token::Mint returns another supply / decimals"); } }
+            if let Some(m) = &xm { if XM::unpack_mint_supply(data) != Some(m.supply) || XM::unpack_mint_decimals(data) != Some(m.decimals) { bad = Some("token-2022 accepts the mint but a checked getter of token_2022::Mint returns another supply / decimals"); } }
+            bad
+        });
+        match g { None => err = Some("a trait-level checked getter panicked".into()), Some(Some(b)) => err = Some(b.into()), Some(None) => {} }
+    }
     if data.len() >= 165 && data[108] == 0 && (view(&ga1).is_some() || view(&ga2).is_some()) {
         err = Some("uninitialised account parses".into());
     }
